@@ -19,8 +19,11 @@ import gen as sgen  # noqa: E402
 
 L = {'op': 'loop'}
 
-RECEIVED_TEXTS = ['submitted', 'started', 'succeeded', 'failed', 'submission failed', 'xx', 'hello']
-POLLED_TEXTS = ['submitted', 'started', 'succeeded', 'failed', 'submission failed', 'xx']
+# job messages: a failure is reported bare (poll result), with the run signal of the job script's trap
+# (failed/ERR, failed/SIGTERM ...) or as an abort (aborted/<reason>)
+RECEIVED_TEXTS = ['submitted', 'started', 'succeeded', 'failed', 'failed/ERR', 'aborted/by the job script',
+                  'submission failed', 'xx', 'hello']
+POLLED_TEXTS = ['submitted', 'started', 'succeeded', 'failed', 'failed/SIGKILL', 'submission failed', 'xx']
 
 
 def comp_flow(n: int, retries: str) -> str:
@@ -130,22 +133,27 @@ PREFIXES = [
 
 
 def probes(sn):
-    """One probe per instance: (kind, text, submit number)."""
+    """One probe per instance: (kind, text, submit number).  The first N_CORE probes (every message kind and
+    flag with the current submit number) are run in every tier; the variants (older / newer submit number,
+    poll results of the previous job) are sampled in the quick tier."""
     if sn == 0:
         # never submitted: no job exists, so the only deliverable events are messages of another submit number
         return [('msg', text, 1) for text in RECEIVED_TEXTS]
     out = [('subres', True, sn), ('subres', False, sn)]
-    sns = [sn, sn + 1] + ([sn - 1] if sn >= 1 else [])
+    out += [('msg', text, sn) for text in RECEIVED_TEXTS]
+    out += [('poll', text, sn) for text in POLLED_TEXTS]
+    assert len(out) == N_CORE
     for text in RECEIVED_TEXTS:
-        for s in sns:
+        for s in [sn + 1] + ([sn - 1] if sn >= 1 else []):
             out.append(('msg', text, s))
-    for text in POLLED_TEXTS:
-        out.append(('poll', text, sn))
     if sn >= 2:
-        # the poll result of the previous job arriving late (poll results carry no submit number)
+        # the poll result of the previous job arriving late (dropped by the dispatch of jobs-poll output)
         for text in ('started', 'succeeded', 'failed'):
             out.append(('poll', text, sn - 1))
     return out
+
+
+N_CORE = 2 + len(RECEIVED_TEXTS) + len(POLLED_TEXTS)
 
 
 def probe_op(i, pr):
@@ -157,7 +165,7 @@ def probe_op(i, pr):
     return _poll(i, payload, sn)
 
 
-CHUNK = 8
+CHUNK = 9      # N_CORE = 18 = two chunks
 
 
 def comp_case(prefix, retries, chunk, second=None):
@@ -190,10 +198,13 @@ def n_chunks(prefix):
 def comp_cases(tier, rng):
     cases = [comp_case(p, r, c) for p, r in PREFIXES for c in range(n_chunks(p))]
     if tier == 'quick':
-        # every state in every run, a seeded half of the probe chunks (thorough runs them all)
-        keep = {(p, rng.randrange(2)) for p, _r in PREFIXES}
-        cases = [c for c in cases if n_chunks(c['id'].split('-')[1]) == 1 or
-                 (c['id'].split('-')[1], int(c['id'].split('-c')[-1]) % 2) in keep]
+        # every state with every message kind / flag of the current submit number in every run (the core chunks),
+        # plus one seeded chunk of the variants per state (thorough runs them all)
+        core = N_CORE // CHUNK
+        pick = {p: (core + rng.randrange(max(1, n_chunks(p) - core))) for p, _r in PREFIXES}
+        cases = [c for c in cases
+                 if n_chunks(c['id'].split('-')[1]) == 1 or int(c['id'].split('-c')[-1]) < core or
+                 int(c['id'].split('-c')[-1]) == pick[c['id'].split('-')[1]]]
     if tier != 'quick':
         for p, r in PREFIXES:
             for k in (1, 5, 11, 17, 23):
@@ -201,13 +212,13 @@ def comp_cases(tier, rng):
     return cases
 
 
-GEN_OPTS = {'polls': True, 'noise': 0.35, 'p_poll_late': 0.0}
+GEN_OPTS = {'polls': True, 'noise': 0.35, 'p_poll_late': 0.0, 'fail_signals': True, 'p_lose': 0.12}
 
 
 class MsgProp(SchedProp):
     """Shared by C09 and C10 (same cases, different judges)."""
     kinds = ('any', 'any', 'complete')
-    n_quick = 24
+    n_quick = 20
     n_thorough = 420
     gen_opts = GEN_OPTS
     exhaustive = False
@@ -329,10 +340,12 @@ class C09(MsgProp):
     technique = ('case analysis over the message step function, simulation of Sched.processMessage by it, inductive '
                  'invariants over delivery lists + enumerated and generated trace correspondence with the real Scheduler')
     rule = ('component enumeration: 19 reachable message states (status x outputs x try state, incl. second tries and '
-            'started-before-submitted) x up to 32 probes (internal submit results, received messages of the same / older / '
-            'newer submit number for 7 message kinds, polled results incl. those of the previous job), one probe per task '
+            'started-before-submitted) x up to 39 probes (internal submit results, received messages of the same / older / '
+            'newer submit number for 9 message kinds incl. failures with a run signal (failed/ERR, aborted/...), polled '
+            'results incl. signal kills and those of the previous job; the 18 current-job probes run in every tier), one probe per task '
             'instance of a one-cycle workflow in the real scheduler (thorough: pairs of probes); plus generated workflows '
-            'under the seeded adaptive schedule with duplicate/stale/out-of-order messages, answered and routine polls '
+            'under the seeded adaptive schedule with duplicate/stale/out-of-order/lost messages, failures reported with run '
+            'signals, answered and routine polls '
             '(a quarter with late poll results); non-trivial = distinct (state, retry variant, chunk) or (kind, polled, '
             'stale, backward, retry, size) class per distinct case')
 
